@@ -374,12 +374,12 @@ fn fixed_errors_case<const N: usize, const M: usize>() -> bool {
 //@ prop: C01
 //@ also: C10
 //@ drives: coding::reset_fixed_lpc_errors, SimdVec::{reset_from_slice, resize, as_ref, as_ref_simd, as_mut_simd}, arrayutils::pack_into_simd_vec
-//@ bound: blocks of 5 and 17 samples (one SIMD vector / two vectors with a carry across the boundary), every 25-bit sample value, scratch buffers holding arbitrary content from a previous 20-sample block
+//@ bound: a block of 6 samples (one 16-lane vector), every 25-bit sample value, scratch buffers holding arbitrary content from a previous 20-sample block (two vectors: the buffers shrink)
 //@ asserts: errors[0] is the signal; errors[k+1][t] = errors[k][t] - errors[k][t-1] for t > k; orders 2 and 4 equal the RFC 9639 fixed-predictor residuals; nothing of the previous block survives (lengths and contents depend on the arguments only)
 #[kani::proof]
 #[kani::unwind(40)]
 fn c01_fixed_residuals_from_dirty_scratch() {
-    let c = if kani::any() { fixed_errors_case::<5, 20>() } else { fixed_errors_case::<17, 20>() };
+    let c = fixed_errors_case::<6, 20>();
     kani::cover!(c);
 }
 
@@ -387,12 +387,12 @@ fn c01_fixed_residuals_from_dirty_scratch() {
 //@ also: C10
 //@ tier: thorough
 //@ drives: coding::reset_fixed_lpc_errors
-//@ bound: blocks of 33 samples (three SIMD vectors) after a 40-sample block, and 16 samples after a 5-sample block (growing)
+//@ bound: blocks of 33 samples (three SIMD vectors, carries across both boundaries) after a 40-sample block, and 17 samples after a 5-sample block (the buffers grow)
 //@ asserts: as c01_fixed_residuals_from_dirty_scratch
 #[kani::proof]
 #[kani::unwind(70)]
 fn c01_fixed_residuals_three_vectors() {
-    let c = if kani::any() { fixed_errors_case::<33, 40>() } else { fixed_errors_case::<16, 5>() };
+    let c = if kani::any() { fixed_errors_case::<33, 40>() } else { fixed_errors_case::<17, 5>() };
     kani::cover!(c);
 }
 
